@@ -20,7 +20,7 @@ CALL_BUDGET_S = 4
 META = {
     "rule": "every numpy callable registered by numpoly (function and ufunc registries, read at run time) x 14 generic "
             "argument patterns, every numpoly poly-function / constructor / operator / method / property, pickling and str, "
-            "x 14 operand forms chosen to make internal aliasing possible (operands already aligned with each other, the "
+            "x 18 operand forms chosen to make internal aliasing possible (operands already aligned with each other, the "
             "identical object passed twice, overlapping views of one buffer, 0-d, transposed views, bool/int/float/complex "
             "dtypes, polynomial mixed with ndarray/list); byte-level snapshots of every argument are compared before and "
             "after each call, whether it returned or raised; out= targets and the copyto destination are the only exemption "
@@ -28,7 +28,7 @@ META = {
             "numpoly function is exercised with a menu of values chosen by the kind of its default (bool flipped, None -> 16 "
             "values, int, float, str menus), and display runs under 7 numpy print-option environments. distinct = (callable, "
             "pattern, operand form).",
-    "bounds": {"operand_forms": 14, "patterns": 14, "keyword_menu_values": 16, "print_environments": 7},
+    "bounds": {"operand_forms": 18, "patterns": 14, "keyword_menu_values": 16, "print_environments": 7},
     "assumptions": ["an argument is observed through shape, strides, dtype, names, keys and raw bytes (base-class view)"],
 }
 
@@ -99,6 +99,14 @@ def operand_forms():
         u = [((0, 0), [1e-9j, 1.0, 2e-20]), ((1, 0), [1e-30, 1e-9, 1e5j]), ((0, 2), [1.0, 1e-13 + 1e-13j, 0.5])]
         return build_checked(spec(("q0", "q1"), (3,), t, "f8")), build_checked(spec(("q0", "q1"), (3,), u, "c16"))
     forms.append(("float/complex coefficients from 5e-324 to 1e300", magnitudes))
+
+    # operands of different rank: missing leading unit axes, genuine broadcasting, 0-d against an array
+    def ranks(sa, sb, dtype="i8"):
+        return lambda: (build_checked(dense(sa, dtype, 0)), build_checked(dense(sb, dtype, 1)))
+    forms.append(("aligned int (3,) with (1,3)", ranks((3,), (1, 3))))
+    forms.append(("aligned int (1,1,2) with (2,)", ranks((1, 1, 2), (2,))))
+    forms.append(("aligned float (3,) with (2,3)", ranks((3,), (2, 3), "f8")))
+    forms.append(("aligned int (1,) with ()", ranks((1,), ())))
 
     def mixed():
         return build_checked(dense((3,), "i8", 0)), numpy.array([1, 0, 2])
